@@ -3,9 +3,10 @@ import GdVerif.Run.Faults
 import GdVerif.Spec.Gs3Faults
 /-
   Driver entry `gs3plan`: the SPEC's plan script for one fault vector of the C10 check (see `Run/ValveFaults.lean`).
-  `THM 1` = the hypotheses of `C10_gs3_query_faulty` / `C10_gs3_query_vars_faulty` hold; these are stated over `ConfigX`
-  / `wfX` (replies with any allowed extra field sections, the domain of the decoding theorems), which is what `gen gs3`
-  draws, so every well-formed generated reply is in the domain.
+  `THM 1` = the hypotheses of `C10_gs3_query_faulty_cut` / `C10_gs3_query_vars_faulty_cut` hold; these are stated over
+  `ConfigC` / `wfC` (replies with any allowed extra field sections whose packets may end inside value lists, the domain of
+  the decoding theorems), which is what `gen gs3` draws, so every well-formed generated reply is in the domain.  Scripts
+  and sends take only the challenge from the configuration (`cfg.closed`).
 
   Unit 0: faults at the handshake stage; unit 1: at the data stage, nothing of the reply arrives; unit 2 (replies of two or
   more data packets): at the data stage the reply STOPS HALF WAY — a silent attempt still receives some of the data packets
@@ -54,18 +55,19 @@ def entryGs3Plan (args : List String) : String :=
   | [seed, k, r, unit, vec] =>
     match seed.toNat?, k.toNat?, r.toNat?, unit.toNat? with
     | some seed, some k, some r, some unit =>
-      -- the generator's replies carry extra field sections (`ConfigX`); plans, scripts and theorems are over `ConfigX`
-      let (cfg, st) := G.run gGs3Case (seed * 1000003 + k)
+      -- the generator's replies carry extra field sections and packets that end inside value lists (`ConfigC`)
+      let (cfgC, st) := G.run gGs3Case (seed * 1000003 + k)
+      let cfg := cfgC.closed
       let port := 29900 + k % 3
       let vars := k % 4 == 3
       let entry := if vars then "gs3vars" else "gs3"
       let stage : Stage := if unit == 0 then .handshake else .data
-      let arrival := dataPacketsX cfg st
+      let arrival := dataPacketsC cfgC st
       let (plan, left) := gs3PlanOfVector r stage unit arrival vec.toList []
       let (lq, lf) := gs3Leftover cfg arrival stage unit (vec.length - left.length) left
       -- the hypotheses of `C10_gs3_query_faulty` (the arrival order is the order of the ids: a permutation)
-      let thm := Spec.wfX cfg st && wfPlan r (dataPacketsX cfg st) plan
-      let want := if vars then showRes showMap (faultyPacketsX cfg st plan >>= buildVars)
+      let thm := Spec.wfC cfgC st && wfPlan r (dataPacketsC cfgC st) plan
+      let want := if vars then showRes showMap (packetsOutcome (payloadsC cfgC st) plan >>= buildVars)
         else showRes showGs3Response (faultyExpected st plan)
       s!"{entry} {port} {r} {showDeliveries (faultyScriptX cfg plan arrival ++ lq)} f={showFaults (faultyFaults plan ++ lf)}"
         ++ " ## WANT " ++ want
